@@ -8,47 +8,8 @@ Variable h0 : heap.
 Variable nsb : nat.
 Hypothesis Hwf : wf_heap h0.
 
-Definition spatial_ok : Prop := forall d fs, nth_error h0 d = Some (NSpatial fs) ->
-  Forall (fun x => exists nd, nth_error h0 x = Some nd /\ is_leaf nd = true) fs.
-Hypothesis Hsp : spatial_ok.
-
-Notation HI := (HI c h0 nsb).
+Notation HI := (HI h0 nsb).
 Notation MI := (MI c h0 nsb).
-
-Lemma conv_leaf_total st d nd0 : HI st -> nth_error h0 d = Some nd0 -> is_leaf nd0 = true ->
-  exists nd y st', nth_error (s_heap st) d = Some nd /\ conv_leaf c d nd st = Some (y, st').
-Proof.
-  intros H Hd Hl. pose proof (hi_old _ _ _ _ H _ _ Hd) as Hnow.
-  destruct nd0 as [t|fs|fs|ts|ct m]; simpl in *; try discriminate.
-  - exists (NTensor t). simpl. destruct (needs_new c t); eauto.
-  - destruct Hnow as (ts1 & Hn & _). exists (NModule ts1). simpl.
-    destruct (conv_module c ts1 (s_next st)) as [ts2 s2]. destruct (c_copy c); eauto.
-  - exists (NPlain ct m). simpl. destruct (c_copy c && m); eauto.
-Qed.
-
-Lemma leaf_loop_total fs : forall lm st, HI st ->
-  Forall (fun x => exists nd, nth_error h0 x = Some nd /\ is_leaf nd = true) fs ->
-  exists ys st', leaf_loop c fs lm st = Some (ys, st').
-Proof.
-  induction fs as [|x r IH]; intros lm st H Hfs; simpl; eauto.
-  inversion Hfs as [|? ? (nd0 & Hx0 & Hl) Hr]; subst.
-  destruct (lookup x lm) as [y|].
-  - destruct (IH lm st H Hr) as (ys & st' & ->). eauto.
-  - destruct (conv_leaf_total st x nd0 H Hx0 Hl) as (nd & y & st1 & Hn & Hc). rewrite Hn, Hc.
-    destruct (conv_leaf_ok c h0 nsb st x nd0 nd y st1 H Hx0 Hn Hc) as (H1 & _).
-    destruct (IH ((x, y) :: lm) st1 H1 Hr) as (ys & st' & ->). eauto.
-Qed.
-
-Lemma MI_add st x y : MI st -> lookup x (s_memo st) = None -> good c h0 nsb (s_memo st) (s_heap st) x y ->
-  MI (add_memo x y st).
-Proof.
-  intros HM Hn Hg d y' Hd. unfold add_memo in *. simpl in *.
-  assert (Hadd : mext (s_memo st) ((x, y) :: s_memo st)) by (apply mext_add; exact Hn).
-  destruct (Nat.eq_dec x d) as [->|Hne].
-  - rewrite Nat.eqb_refl in Hd. injection Hd as <-. eapply good_stable; eauto using ext_refl.
-  - destruct (Nat.eqb x d) eqn:Ee; [apply Nat.eqb_eq in Ee; contradiction|].
-    eapply good_stable; [apply HM; exact Hd|apply ext_refl|exact Hadd].
-Qed.
 
 Lemma field_loop_total convf bound :
   (forall x, x < bound -> conv_spec c h0 nsb convf x) ->
@@ -63,32 +24,34 @@ Proof.
   - destruct (Htot x st Hxb Hx0 H HM) as (y & st1 & Hc). rewrite Hc.
     destruct (Hspec x Hxb st y st1 Hx0 H HM Hc) as (H1 & X1 & M1 & Me1 & K1 & G1).
     assert (Hnone : lookup x (s_memo st1) = None) by (rewrite K1 by lia; exact El).
-    destruct (IH (add_memo x y st1) Hr (HI_memo _ _ _ _ _ H1) (MI_add st1 x y M1 Hnone G1)) as (ys & st' & ->). do 2 eexists; reflexivity.
+    destruct (IH (add_memo x y st1) Hr (HI_memo _ _ _ _ H1) (MI_add _ _ _ st1 x y M1 Hnone G1)) as (ys & st' & ->).
+    do 2 eexists; reflexivity.
 Qed.
 
 Lemma conv_total fuel : forall d st, d < fuel -> (exists nd, nth_error h0 d = Some nd) -> HI st -> MI st ->
   exists y st', conv fuel c d st = Some (y, st').
 Proof.
   induction fuel as [|f IH]; intros d st Hf [nd0 Hd0] H HM; [lia|]. simpl.
-  pose proof (hi_old _ _ _ _ H _ _ Hd0) as Hnow. destruct nd0 as [t|fs|fs|ts|ct m]; simpl in Hnow.
-  - rewrite Hnow. simpl. destruct (needs_new c t); eauto.
-  - rewrite Hnow. pose proof (children_src h0 Hwf d fs (or_introl Hd0)) as Hch.
+  rewrite (hi_old _ _ _ _ _ H Hd0). destruct nd0 as [t|fs|fs|ts|ct m].
+  - simpl. destruct (needs_new c t); eauto.
+  - pose proof (children_src h0 Hwf d fs (or_introl Hd0)) as Hch.
     destruct (field_loop_total (conv f c) d (fun x _ => conv_ok c h0 nsb Hwf f x)
-                (fun x st' Hx Hx0 H' HM' => IH x st' ltac:(lia) Hx0 H' HM') fs st Hch H HM) as (ys & st1 & ->). unfold alloc; eauto.
-  - rewrite Hnow. destruct (leaf_loop_total fs [] st H (Hsp d fs Hd0)) as (ys & st1 & ->). unfold alloc; eauto.
-  - destruct Hnow as (ts1 & -> & _). simpl. destruct (conv_module c ts1 (s_next st)). destruct (c_copy c); eauto.
-  - rewrite Hnow. simpl. destruct (c_copy c && m); eauto.
+                (fun x st' Hx Hx0 H' HM' => IH x st' ltac:(lia) Hx0 H' HM') fs st Hch H HM) as (ys & st1 & ->).
+    unfold alloc; eauto.
+  - pose proof (children_src h0 Hwf d fs (or_intror Hd0)) as Hch.
+    destruct (field_loop_total (conv f c) d (fun x _ => conv_ok c h0 nsb Hwf f x)
+                (fun x st' Hx Hx0 H' HM' => IH x st' ltac:(lia) Hx0 H' HM') fs st Hch H HM) as (ys & st1 & ->).
+    unfold alloc; eauto.
+  - simpl. destruct (conv_module c ts (s_next st)). eauto.
+  - simpl. destruct (c_copy c && m); eauto.
 Qed.
 End Total.
 
-Theorem call_total a h ns root : wf_heap h -> spatial_ok h -> root < length h ->
+Theorem call_total a h ns root : wf_heap h -> root < length h ->
   exists r h', call_top a h ns root = Some (r, h').
 Proof.
-  intros Hwf Hsp Hr. unfold call_top, to_top.
-  assert (H0 : HI (parse a) h ns (mkS h [] ns)).
-  { constructor; simpl; auto.
-    intros i n Hi. destruct n; simpl; auto. eexists; split; eauto. apply Forall2_refl_eq. intros; left; reflexivity. }
-  assert (M0 : MI (parse a) h ns (mkS h [] ns)) by (intros d y Hd; discriminate).
-  destruct (conv_total (parse a) h ns Hwf Hsp (S (length h)) root _ ltac:(lia) (lt_nth_error _ _ Hr) H0 M0) as (y & st & ->).
+  intros Hwf Hr. unfold call_top, to_top.
+  destruct (conv_total (parse a) h ns Hwf (S (length h)) root _ ltac:(lia) (lt_nth_error _ _ Hr)
+              (HI_init h ns) (MI_init (parse a) h ns)) as (y & st & ->).
   eauto.
 Qed.
